@@ -314,4 +314,217 @@ Definition check_1701 (fs : list field) : verdict :=
   | _ => VBad 99 []
   end.
 
-Definition check_1702 (fs : list field) : verdict := VSkip.
+(* ---- response side ---- *)
+Definition s_of_string (l : list Z) := l.
+Definition txt_true := [116;114;117;101].  Definition txt_false := [102;97;108;115;101].
+
+(* EncodeText(asJson = false) of scalars; None: opaque here (doubles, containers: float / JSON / kitex text is not compared) *)
+Definition enc_text (o : hopts) (t : tdesc) (v : tval) : option (list Z) :=
+  match t, v with
+  | TBase _ _, VBool b => Some (if b =? 1 then txt_true else txt_false)
+  | TBase _ _, VByte z => Some (fmt_int (z mod 256))     (* EncodeText prints the byte unsigned, whatever ByteAsUint8 says (follows the code) *)
+  | TBase _ _, VI16 z | TBase _ _, VI32 z | TBase _ _, VI64 z => Some (fmt_int z)
+  | TBase _ bin, VString s => Some (if bin && negb (o_nob64 o) then b64_encode s else s)
+  | _, _ => None
+  end.
+
+Record rexp := mkRexp {
+  re_err : Z;                                            (* 0 none, 1 missing required, 3 a mapping failed *)
+  re_names : list (list Z);                              (* members of the JSON object *)
+  re_deliv : list (Z * list Z * option (list Z));        (* kind, key, text (None: not compared) *)
+  re_subs : list (list Z * list (list Z)) }.             (* members of nested objects, by member name *)
+
+Definition rexp_empty := mkRexp 0 [] [] [].
+Definition rexp_app (a b : rexp) : rexp :=
+  mkRexp (if re_err a =? 0 then re_err b else re_err a) (re_names a ++ re_names b) (re_deliv a ++ re_deliv b) (re_subs a ++ re_subs b).
+
+Definition opaque_text := [91].
+
+(* one field with a value (present, or the zero value of an owed absent field) at a level where the response is available *)
+(* finding 1717: with UseKitexHttpEncoding the text of an EMPTY list/set is the empty string, which writeHttpValue caches as a nil
+   slice; when the first mapping fails (OmitHttpMappingErrors) the next one finds `textVal == nil` and reads the Thrift value AGAIN,
+   from the position behind it *)
+Definition kitex_reread (o : hopts) (f : fdesc) (v : tval) : bool :=
+  o_kitex o && o_omit o &&
+  match v with VList _ [] | VSet _ [] => true | _ => false end &&
+  match f_anns f with a :: _ :: _ => match resp_ann a opaque_text with RFail => true | _ => false end | _ => false end.
+
+Definition resp_one (o : hopts) (absent : bool) (f : fdesc) (v : tval) : rexp :=
+  if kitex_reread o f v then mkRexp 5 [] [] [] else
+  let t := enc_text o (f_ty f) v in
+  match resp_field o f (match t with Some x => x | None => opaque_text end) with
+  | RODelivered k key _ => mkRexp 0 [] [(k, key, if k =? K_HTTP_CODE then option_map fmt_int (match t with Some x => go_parse_int64 x | None => None end) else t)] []
+  | ROSwallowed => rexp_empty
+  | ROBody => mkRexp 0 [f_name f] [] []
+  | RODropped => if absent then mkRexp 0 [f_name f] [] [] else rexp_empty      (* handleUnsets writes the member whenever no mapping took it *)
+  | ROError => mkRexp 3 [] [] []
+  end.
+
+Definition struct_names (fs : list fdesc) (vals : list (Z * tval)) (o : hopts) : list (list Z) :=
+  flat_map (fun p => match find (fun f => f_id f =? fst p) fs with Some f => [f_name f] | None => [] end) vals ++
+  flat_map (fun f => if existsb (fun p => fst p =? f_id f) vals then [] else
+                     if ((f_req f =? R_REQUIRED) && o_wr o) || ((f_req f =? R_DEFAULT) && o_wd o) then
+                       (match resp_field o f (match enc_text o (f_ty f) (zero_of (f_ty f)) with Some x => x | None => opaque_text end) with
+                        | ROSwallowed | RODelivered _ _ _ => []
+                        | _ => [f_name f]
+                        end)
+                     else []) (sort_by_id fs).
+
+(* the levels the response setter does not reach (depth >= 2, and everything inside containers): plain conversion.
+   0 fine; 1 a required field is missing and WriteRequireField is off; 4 finding 1716: handleUnsets hands an absent http-mapped
+   field to writeHttpValue although the response is nil there (nil-pointer panic) *)
+Definition first_nz (a b : Z) : Z := if a =? 0 then b else a.
+
+Fixpoint plain_chk (fuel : nat) (o : hopts) (t : tdesc) (v : tval) : Z :=
+  match fuel with
+  | O => 0
+  | S n =>
+    match t, v with
+    | TStruct fs, VStruct vals =>
+      first_nz
+        (fold_left (fun acc p => first_nz acc (match find (fun f => f_id f =? fst p) fs with Some f => plain_chk n o (f_ty f) (snd p) | None => 0 end)) vals 0)
+        (fold_left (fun acc f =>
+           first_nz acc
+             (if existsb (fun p => fst p =? f_id f) vals then 0
+              else if f_req f =? R_OPTIONAL then 0
+              else if (f_req f =? R_REQUIRED) && negb (o_wr o) then 1
+              else if (f_req f =? R_DEFAULT) && negb (o_wd o) then 0
+              else match resp_field o f (match enc_text o (f_ty f) (zero_of (f_ty f)) with Some x => x | None => opaque_text end) with
+                   | RODelivered _ _ _ => if nonempty (f_anns f) then 4 else 0    (* the mapping calls a method of the nil response *)
+                   | ROError => 3
+                   | _ => 0
+                   end)) (sort_by_id fs) 0)
+    | TList e, VList _ es | TSet e, VSet _ es => fold_left (fun acc x => first_nz acc (plain_chk n o e x)) es 0
+    | TMap _ e, VMap _ _ es => fold_left (fun acc x => first_nz acc (plain_chk n o e (snd x))) es 0
+    | _, _ => 0
+    end
+  end.
+
+(* lvl = number of struct levels BELOW this one that the response setter still reaches (1 at the root: its direct struct members) *)
+Fixpoint resp_struct (lvl : nat) (o : hopts) (fs : list fdesc) (vals : list (Z * tval)) : rexp :=
+  let present :=
+    fold_left (fun acc p =>
+      match find (fun f => f_id f =? fst p) fs with
+      | None => acc
+      | Some f =>
+        rexp_app acc
+          (match f_ty f, snd p, f_anns f with
+           | TStruct gs, VStruct sub, [] =>
+             match lvl with
+             | S l' =>
+               let r := resp_struct l' o gs sub in
+               mkRexp (re_err r) [f_name f] (re_deliv r) [(f_name f, re_names r)]
+             | _ => mkRexp (plain_chk 8 o (f_ty f) (snd p)) [f_name f] [] [(f_name f, struct_names gs sub o)]
+             end
+           | _, _, _ =>
+             (* with UseKitexHttpEncoding a mapped container is read by ReadAnyWithDesc, which checks no requiredness *)
+             let c := if o_kitex o && nonempty (f_anns f) && is_complex (f_ty f) then 0 else plain_chk 8 o (f_ty f) (snd p) in
+             if negb (c =? 0) then mkRexp c [] [] [] else resp_one o false f (snd p)
+           end)
+      end) vals rexp_empty in
+  let absent :=
+    fold_left (fun acc f =>
+      if existsb (fun p => fst p =? f_id f) vals then acc else
+      if f_req f =? R_OPTIONAL then acc else
+      if (f_req f =? R_REQUIRED) && negb (o_wr o) then rexp_app acc (mkRexp 1 [] [] [])
+      else if (f_req f =? R_DEFAULT) && negb (o_wd o) then acc
+      else rexp_app acc (resp_one o true f (zero_of (f_ty f)))) (sort_by_id fs) rexp_empty in
+  rexp_app present absent.
+
+Definition resp_model (o : hopts) (fs : list fdesc) (vals : list (Z * tval)) : rexp := resp_struct 1 o fs vals.
+Definition FINDING_T2J_NIL_RESP := 1716.
+
+Fixpoint parse_names (n : nat) (fs : list field) : option (list (list Z * option (list (list Z))) * list field) :=
+  match n with
+  | O => Some ([], fs)
+  | S n' =>
+    match fs with
+    | FB name :: FZ ns :: r =>
+      if ns <? 0 then match parse_names n' r with Some (l, r') => Some ((name, None) :: l, r') | None => None end
+      else
+        let k := Z.to_nat ns in
+        let subs := flat_map (fun x => match x with FB b => [b] | _ => [] end) (firstn k r) in
+        match parse_names n' (skipn k r) with Some (l, r') => Some ((name, Some subs) :: l, r') | None => None end
+    | _ => None
+    end
+  end.
+
+Fixpoint parse_calls (n : nat) (fs : list field) : option (list (Z * list Z * list Z) * list field) :=
+  match n with
+  | O => Some ([], fs)
+  | S n' => match fs with
+            | FZ k :: FB key :: FB v :: r => match parse_calls n' r with Some (l, r') => Some ((k, key, v) :: l, r') | None => None end
+            | _ => None
+            end
+  end.
+
+Definition subset_s (a b : list (list Z)) : bool := forallb (fun x => mem_s x b) a.
+Definition same_set (a b : list (list Z)) : bool := subset_s a b && subset_s b a && (length a =? length b)%nat.
+
+Definition deliv_matches (e : Z * list Z * option (list Z)) (c : Z * list Z * list Z) : bool :=
+  let '(k, key, t) := e in let '(k', key', v) := c in
+  (k =? k') && zlist_eqb key key' && match t with Some x => zlist_eqb x v | None => true end.
+
+(* every expected delivery is matched by a distinct actual call and vice versa (lists are short) *)
+Fixpoint remove_first {A} (p : A -> bool) (l : list A) : option (list A) :=
+  match l with
+  | [] => None
+  | x :: r => if p x then Some r else match remove_first p r with Some r' => Some (x :: r') | None => None end
+  end.
+Fixpoint deliv_same (es : list (Z * list Z * option (list Z))) (cs : list (Z * list Z * list Z)) : bool :=
+  match es with
+  | [] => match cs with [] => true | _ => false end
+  | e :: es' => match remove_first (deliv_matches e) cs with Some cs' => deliv_same es' cs' | None => false end
+  end.
+
+(* 1702: fields: opts, descriptor, input bytes, err class, json ok, members (name, nsub, subnames), calls (kind, key, value), json *)
+Definition check_1702 (fs : list field) : verdict :=
+  match fs with
+  | FZ bits :: r =>
+    match parse_tdesc (S (length r)) r with
+    | Some (TStruct flds, FB inb :: FZ ec :: FZ jok :: FZ nm :: r1) =>
+      if (nm <? 0) || (nm >? 100000) then VBad 99 [] else
+      match parse_names (Z.to_nat nm) r1 with
+      | Some (names, FZ nc :: r2) =>
+        if (nc <? 0) || (nc >? 100000) then VBad 99 [] else
+        match parse_calls (Z.to_nat nc) r2 with
+        | Some (calls, [FB _]) =>
+          match decode_all T_STRUCT inb with
+          | Some (VStruct vals) =>
+            if negb (wf (VStruct vals)) then VSkip else
+            let o := opts_of bits in
+            let judge (e : rexp) : verdict :=
+            if re_err e =? 4 then (if ec =? 4 then VKnown FINDING_T2J_NIL_RESP else VBad 6 []) else
+            if re_err e =? 5 then (if negb (ec =? 0) && negb (ec =? 4) then VKnown 1717 else VDrift 2) else
+            if ec =? 4 then VBad 4 [] else
+            if negb (re_err e =? 0) then
+              (* an error is expected; deliveries made before the failing field are not compared *)
+              expect 1 (negb (ec =? 0)) [FZ (re_err e)]
+            else
+              vand (expect 2 ((ec =? 0) && (jok =? 1)) [])
+             (vand (expect 3 (same_set (re_names e) (map fst names)) (map FB (re_names e)))
+             (vand (expect 4 (forallb (fun s => match find (fun n => zlist_eqb (fst n) (fst s)) names with
+                                                | Some (_, Some subs) => same_set (snd s) subs
+                                                | _ => false
+                                                end) (re_subs e)) (flat_map (fun s => FB (fst s) :: map FB (snd s)) (re_subs e)))
+                   (expect 5 (deliv_same (re_deliv e) calls)
+                      (flat_map (fun d => [FZ (fst (fst d)); FB (snd (fst d)); FB (match snd d with Some x => x | None => [63] end)]) (re_deliv e)))))
+            in
+            match judge (resp_model o flds vals) with
+            | VBad c d => match judge (resp_model o (reorder_fields 8 flds) vals) with
+                          | VOk => VKnown FINDING_BODY_LAST
+                          | VKnown k => VKnown k
+                          | _ => VBad c d
+                          end
+            | x => x
+            end
+          | _ => VSkip
+          end
+        | _ => VBad 98 []
+        end
+      | _ => VBad 97 []
+      end
+    | _ => VBad 96 []
+    end
+  | _ => VBad 99 []
+  end.
